@@ -8,3 +8,6 @@ def run(ck):
     ob = encoding.analyse26(ck)
     ob.emit(ck, "C26")
     ck.floor("CMP", "encoding/obligations", len([1 for it in ob.items if "C26" in it[0]]), 5, "C26 obligations evaluated")
+    if ck.tier == "thorough":
+        from . import witnesses
+        witnesses.run(ck, ["hash_bytes_compact_private"])
